@@ -43,9 +43,17 @@ struct SchedOutcome {
     capped: bool,
 }
 
-fn explore_scenario(rep: &mut Reporter, scn: &Scn, bound: usize, max_exec: u64, label: &str) -> SchedOutcome {
+/// Extra conditions of a scenario: queue capacities of the small world, the filtered output a writing run must produce.
+#[derive(Clone, Default)]
+struct Extra {
+    cap_override: Option<usize>,
+    expected_output: Option<Vec<u8>>,
+}
+
+fn explore_scenario(rep: &mut Reporter, scn: &Scn, extra: &Extra, bound: usize, max_exec: u64, label: &str) -> SchedOutcome {
     let cfg = scenario::config(scn);
-    let mut outputs: BTreeMap<(Option<Vec<u8>>, bool), Vec<usize>> = BTreeMap::new();
+    let mut outputs: BTreeMap<(Option<Vec<u8>>, bool, Option<Vec<u8>>), Vec<usize>> = BTreeMap::new();
+    let mut full_queue_seen = false;
     let mut arrival: std::collections::BTreeSet<Vec<usize>> = Default::default();
     let mut problems: Vec<(String, String, Vec<usize>)> = Vec::new();
     let mut executions = 0u64;
@@ -54,7 +62,7 @@ fn explore_scenario(rep: &mut Reporter, scn: &Scn, bound: usize, max_exec: u64, 
     let mut abstract_states: std::collections::HashSet<u64> = Default::default();
     // two base schedules (default policy prefers the oldest / the youngest waiting thread); d deviations around each
     for descending in [false, true] {
-    let base = Policy { descending, ..base_policy() };
+    let base = Policy { descending, cap_override: extra.cap_override, ..base_policy() };
     // replay determinism: the default schedule twice
     let (r1, o1) = scenario::run(scn, cfg, base.clone());
     let (r2, o2) = scenario::run(scn, cfg, base.clone());
@@ -84,7 +92,15 @@ fn explore_scenario(rep: &mut Reporter, scn: &Scn, bound: usize, max_exec: u64, 
         if let Some((_, order)) = per_chan.into_iter().max_by_key(|(_, v)| v.len()) {
             arrival.insert(order);
         }
-        let e = outputs.entry((o.stats_file.clone(), o.any_errors)).or_default();
+        if let Some(c) = extra.cap_override {
+            full_queue_seen |= r.max_chan_len.values().any(|l| *l >= c);
+        }
+        if let Some(want) = &extra.expected_output {
+            if o.output_file.as_ref() != Some(want) {
+                problems.push(("sched:filtered-output-differs-from-the-matching-packets".into(), format!("the output file has {:?} bytes, the packets of the selected link make {} bytes", o.output_file.as_ref().map(|f| f.len()), want.len()), prefix.to_vec()));
+            }
+        }
+        let e = outputs.entry((o.stats_file.clone(), o.any_errors, o.output_file.clone())).or_default();
         if e.is_empty() {
             *e = prefix.to_vec();
             if descending {
@@ -109,15 +125,18 @@ fn explore_scenario(rep: &mut Reporter, scn: &Scn, bound: usize, max_exec: u64, 
         let mut it = outputs.iter();
         let a = it.next().unwrap();
         let b = it.next().unwrap();
-        let diff = first_diff_line(a.0 .0.as_deref().unwrap_or(b""), b.0 .0.as_deref().unwrap_or(b""));
+        let diff = if a.0 .0 != b.0 .0 { first_diff_line(a.0 .0.as_deref().unwrap_or(b""), b.0 .0.as_deref().unwrap_or(b"")) } else { format!("filtered output files of {:?} vs {:?} bytes / any-errors flag {} vs {}", a.0 .2.as_ref().map(|f| f.len()), b.0 .2.as_ref().map(|f| f.len()), a.0 .1, b.0 .1) };
         rep.violation(Violation {
             signature: format!("sched:output-depends-on-schedule:{}", if scn.mute { "muted" } else { "unmuted" }),
-            description: format!("{} distinct statistics files over the explored schedules of [{label}]; first difference: {diff}", outputs.len()),
+            description: format!("{} distinct outcomes (statistics file, any-errors flag, filtered output) over the explored schedules of [{label}]; first difference: {diff}", outputs.len()),
             replay: json!({"scenario": label, "schedule_a": a.1, "schedule_b": b.1}),
         });
     }
     if outputs.keys().any(|k| k.0.is_none()) {
         rep.machinery_error(format!("{label}: an execution wrote no statistics file"));
+    }
+    if extra.cap_override.is_some() && !full_queue_seen {
+        rep.machinery_error(format!("{label}: no bounded queue was ever full (vacuous small world)"));
     }
     SchedOutcome { executions, steps, abstract_states: abstract_states.len(), distinct_outputs: outputs.len(), distinct_arrival_orders: arrival.len(), capped }
 }
@@ -319,37 +338,73 @@ pub fn run(tier: Tier, _replay: Option<String>, part: Option<usize>) -> i32 {
     let mut arrival_orders = 0usize;
     let mut scen_json = Vec::new();
     // (a)
-    let mut scenarios: Vec<(String, Scn)> = Vec::new();
+    let mut scenarios: Vec<(String, Scn, Extra)> = Vec::new();
     for (mode, stave) in [(Mode::All, false), (Mode::AllIts, false), (Mode::AllStave, true)] {
         for mute in [false, true] {
             let (links, hbfs) = if tier.is_thorough() { (2, 1) } else { (2, 1) };
-            let (_, bytes) = streams::multi_link(links, hbfs, 0, true, stave);
+            let (mut per_link, mut bytes) = streams::multi_link(links, hbfs, 0, true, stave);
+            if stave {
+                // in stave mode every FEE also carries an ALPIDE frame error (a chip bunch counter that deviates):
+                // messages that name their FEE id, from which the collector derives the list of staves with errors
+                for pk in per_link.iter_mut() {
+                    'f: for p in pk.iter_mut() {
+                        if let Some(wi) = p.words.iter().position(|w| w.kind == fp_model::grammar::WKind::Data) {
+                            let off = p.word_rel_offset(wi) as usize - 64;
+                            p.packet.payload[off + 1] ^= 0x01;
+                            break 'f;
+                        }
+                    }
+                }
+                bytes = fp_model::grammar::round_robin(&per_link).bytes();
+            }
             scenarios.push((
                 format!("{:?} mute={mute} {links} links x {hbfs} HBF, E10+E11 on every RDH, batch 2", mode),
                 Scn { mode, mute, max_errors: 0, signal: false, cap: 2, input: Arc::new(bytes), scratch: scratch(), toml: false },
+                Extra::default(),
             ));
         }
     }
     // three links, muted, check all its
     let (_, bytes3) = streams::multi_link(3, 1, 1, true, false);
-    scenarios.push(("AllIts mute=false 3 links x 1 HBF, batch 3".into(), Scn { mode: Mode::AllIts, mute: false, max_errors: 0, signal: false, cap: 3, input: Arc::new(bytes3), scratch: scratch(), toml: true }));
+    scenarios.push(("AllIts mute=false 3 links x 1 HBF, batch 3".into(), Scn { mode: Mode::AllIts, mute: false, max_errors: 0, signal: false, cap: 3, input: Arc::new(bytes3), scratch: scratch(), toml: true }, Extra::default()));
     // the reader's own message (E100, payload cut short by the end of input) competes with the validators' messages:
     // the last RDH carries E10 + E11 and its payload is cut by 8 bytes
     for mode in [Mode::AllIts, Mode::All] {
         let (_, mut bytes) = streams::multi_link(2, 1, 0, true, false);
         bytes.truncate(bytes.len() - 8);
-        scenarios.push((format!("{:?} mute=false 2 links x 1 HBF, E10+E11 on every RDH, last payload cut by 8 bytes (reader reports E100), batch 2", mode), Scn { mode, mute: false, max_errors: 0, signal: false, cap: 2, input: Arc::new(bytes), scratch: scratch(), toml: false }));
+        scenarios.push((format!("{:?} mute=false 2 links x 1 HBF, E10+E11 on every RDH, last payload cut by 8 bytes (reader reports E100), batch 2", mode), Scn { mode, mute: false, max_errors: 0, signal: false, cap: 2, input: Arc::new(bytes), scratch: scratch(), toml: false }, Extra::default()));
     }
     // a check combined with a filter and an output destination (the destination is ignored, no writer may take part)
     {
         let (_, bytes) = streams::multi_link(2, 2, 0, true, false);
-        scenarios.push(("AllIts with --filter-link 0 and an (ignored) -o file, 2 links x 2 HBFs, E10+E11 on every RDH, batch 2".into(), Scn { mode: Mode::AllItsIgnoredOutput(0), mute: false, max_errors: 0, signal: false, cap: 2, input: Arc::new(bytes), scratch: scratch(), toml: false }));
+        scenarios.push(("AllIts with --filter-link 0 and an (ignored) -o file, 2 links x 2 HBFs, E10+E11 on every RDH, batch 2".into(), Scn { mode: Mode::AllItsIgnoredOutput(0), mute: false, max_errors: 0, signal: false, cap: 2, input: Arc::new(bytes), scratch: scratch(), toml: false }, Extra::default()));
+    }
+    // small worlds: every bounded queue holds one element, so that full queues (and whatever the code does about
+    // them) take part; batches of 1 packet keep the reader ahead of the analysis
+    for (mode, links, hbfs) in [(Mode::AllIts, 2usize, 2usize), (Mode::All, 3, 1)] {
+        let (_, bytes) = streams::multi_link(links, hbfs, 0, true, false);
+        scenarios.push((format!("{:?} mute=false {links} links x {hbfs} HBF, E10+E11 on every RDH, batch 1, every bounded queue of capacity 1", mode), Scn { mode, mute: false, max_errors: 0, signal: false, cap: 1, input: Arc::new(bytes), scratch: scratch(), toml: false }, Extra { cap_override: Some(1), expected_output: None }));
+    }
+    // filtered writing: the output file is part of the outcome and must hold exactly the selected link's packets
+    for (link, cap_override) in [(0u8, None), (1u8, Some(1usize))] {
+        let (per_link, bytes) = streams::multi_link(2, 2, 0, false, false);
+        let want: Vec<u8> = per_link[link as usize].iter().flat_map(|p| p.packet.bytes()).collect();
+        scenarios.push((format!("filtered writing --filter-link {link} -o file, 2 links x 2 HBFs, batch 1, queue capacity {:?}", cap_override), Scn { mode: Mode::Write(link), mute: false, max_errors: 0, signal: false, cap: 1, input: Arc::new(bytes), scratch: scratch(), toml: false }, Extra { cap_override, expected_output: Some(want) }));
     }
     let cap = if tier.is_thorough() { 400_000 } else { 6_000 };
     if let Some(k) = part {
         // worker process: one scenario
-        let (label, scn) = &scenarios[k];
-        let so = explore_scenario(&mut rep, scn, bound, cap, label);
+        let (label, scn, extra) = &scenarios[k];
+        // the ALPIDE frame messages are formatted with the help of the process-wide configuration (mute option)
+        {
+            use clap::Parser;
+            let mut argv = vec!["fastpasta", "check", "all", "its-stave"];
+            if scn.mute {
+                argv.insert(1, "-m");
+            }
+            let _ = fastpasta::config::CONFIG.set(fastpasta::config::Cfg::parse_from(argv));
+        }
+        let so = explore_scenario(&mut rep, scn, extra, bound, cap, label);
         crate::parts::write_part(&rep.export_part(json!({"scenario": label, "executions": so.executions, "steps": so.steps, "abstract_states": so.abstract_states, "distinct_outputs": so.distinct_outputs, "distinct_arrival_orders": so.distinct_arrival_orders, "deviation_bound": bound, "capped": so.capped})));
         let _ = std::fs::remove_dir_all(scratch());
         return 0;
@@ -365,7 +420,7 @@ pub fn run(tier: Tier, _replay: Option<String>, part: Option<usize>) -> i32 {
                 total_steps += so["steps"].as_u64().unwrap_or(0);
                 abstract_states += so["abstract_states"].as_u64().unwrap_or(0) as usize;
                 arrival_orders += so["distinct_arrival_orders"].as_u64().unwrap_or(0) as usize;
-                if so["distinct_arrival_orders"].as_u64().unwrap_or(0) < 2 {
+                if so["distinct_arrival_orders"].as_u64().unwrap_or(0) < 2 && !label.starts_with("filtered writing") {
                     rep.machinery_error(format!("{label}: only one arrival order was produced (vacuous exploration)"));
                 }
                 scen_json.push(so);
